@@ -884,9 +884,9 @@ func ruleV8(c *Ctx, id string) {
 				}
 				// a panic moved into a private single-caller helper keeps its owner's justification
 				key := FuncName(fn) + "|" + msg
-				why, ok := panicJustified[key]
+				why, ok := byFuncS(panicJustified, key)
 				if !ok && fn.Parent() == nil {
-					if w2, ok2 := panicJustified[FuncName(ownerOf(fn))+"|"+msg]; ok2 {
+					if w2, ok2 := byFuncS(panicJustified, FuncName(ownerOf(fn))+"|"+msg); ok2 {
 						key, why, ok = FuncName(ownerOf(fn))+"|"+msg, w2, true
 					}
 				}
@@ -895,17 +895,18 @@ func ruleV8(c *Ctx, id string) {
 					all, first := true, ""
 					for _, site := range staticSites[fn] {
 						k2 := FuncName(site.Parent()) + "|" + msg
-						if _, ok2 := panicJustified[k2]; !ok2 {
+						if _, ok2 := byFuncS(panicJustified, k2); !ok2 {
 							k2 = FuncName(ownerOf(site.Parent())) + "|" + msg
 						}
-						if _, ok2 := panicJustified[k2]; !ok2 {
+						if _, ok2 := byFuncS(panicJustified, k2); !ok2 {
 							all = false
 						} else if first == "" {
 							first = k2
 						}
 					}
 					if all {
-						key, why, ok = first, panicJustified[first], true
+						key, ok = first, true
+						why, _ = byFuncS(panicJustified, first)
 					}
 				}
 				R.Check(ok, id, key, P.Pos(pn.Pos()), "an explicit panic reachable from a handler has a recorded invariant that excludes it", why, "new explicit panic reachable from a request handler: one request can kill the whole server process")
@@ -1385,3 +1386,6 @@ func ruleDirKind(c *Ctx, id string) {
 		R.Fail(id, "dir|content accesses", "?", "package dir reads and writes directory content", "no Inode.Read/Write call found in package dir")
 	}
 }
+
+// byFuncS: byFunc for the two-result and the one-result forms used with the panic table.
+func byFuncS(m map[string]string, key string) (string, bool) { return byFunc(m, key) }
